@@ -16,6 +16,21 @@ from .common import Ctx, err_kind
 
 DRIVERS = ["C09"]
 LEVEL = "proof"
+MANIFEST = {
+    "category": "proof",
+    "text": ("Lean 4 theorems about an executable model of dates.py (all integer serials/offsets, all frequencies, all span triples and "
+             "in-place op sequences, no bound): (p+n)-p=n, p+(q-p)=q, order/equality/hash-key agree with serial order, mixed frequencies "
+             "rejected by every binary op and by Span construction, year/segment round trips, ordinal<->(y,m,d) bijection on valid dates, "
+             "consecutive regular periods tile the day line (start(s+1)=end(s)+1, start<=middle<=end), shift keywords land on the documented "
+             "period, a span enumerates exactly start+i*step up to end, len/iter/index agree, reversal is an involution, shifting maps elements, "
+             "resolve replaces exactly the contextual ends. The model is tied to the code on every run: closed-form fragments and day tables are "
+             "regenerated from dates.py by the translator (a changed formula re-checks the proofs), everything else by exact line-by-line "
+             "correspondence with irispie (quick: every day 1890-2110 + boundary years, every regular period of those years; thorough: every "
+             "day and period of years 1-9999), plus an independent datetime/range oracle on the implementation that supplies the replay."),
+    "design": "7/C09",
+    "note": "datetime.date is the reference calendar (tied by enumeration, not proof); CPython hash() itself is not modelled.",
+    "technique": "Lean 4 proof over executable model + translator-regenerated fragments + exhaustive differential correspondence",
+}
 ASSUMPTIONS = [
     "datetime.date (C code) is the reference calendar; the model's calendar is tied to it by enumeration of days, not by proof",
     "hash(): only the tuple that Period.__hash__ hashes is modelled, CPython's hash function itself is not",
